@@ -183,8 +183,9 @@ def gen_imports(rng, fs, tier):
         for a in range(nd):
             if not fs["exact"] or rng.random() < 0.7:      # scale regime: every axis, so one scale per case
                 if fs["exact"]:
-                    c = F(rng.choice([1, 3, 5, 9]), 2 ** rng.randint(0, 5))
-                    x0 = F(rng.randint(-512, 512), 16)
+                    e2 = F(2) ** (fs.get("pow2") or 0)        # same magnitude as the field (kept attributes stay comparable)
+                    c = F(rng.choice([1, 3, 5, 9]), 2 ** rng.randint(0, 5)) * e2
+                    x0 = F(rng.randint(-512, 512), 16) * e2
                     vals = [x0 + j * c for j in range(fs["n"][a])]
                 else:
                     c = round(rng.uniform(0.2, 9.0), 2) * s
@@ -194,7 +195,7 @@ def gen_imports(rng, fs, tier):
         sub = rng.choice([list(GEO_ATTRS), list(GEO_ATTRS), ["pmin", "pmax"], ["cell", "pmin"], ["cell", "pmax"]])
         out.append(("even-coords", dict(coords=coords, del_attrs=sub)))
     # coordinate dtypes: float32 (dyadic: exact; decimal: single-precision tolerance), unsigned / narrow integers
-    r = rng.random()
+    r = rng.random() if all(k >= 2 for k in fs["n"]) else 1.0
     if r < 0.25:
         out.append(("f32-dyadic-coords", dict(
             coords={str(a): [S(F(rng.randint(-64, 64), 4) + j * F(rng.choice([1, 2, 3, 6]), 4)) for j in range(fs["n"][a])]
@@ -310,7 +311,7 @@ def generate(rng, tier):
     for k in range(nf // 2):
         fs = gen_field(rng, k % 3 == 0, tier, nd=rng.choice([1, 2, 3]), min_n=3)
         for cls, mods in gen_imports(rng, fs, tier):
-            if cls.startswith(("perturbed", "last", "even")):
+            if cls.startswith(("perturbed", "last", "even", "f32", "typed", "int-", "attr-types", "decreasing")):
                 cases.append(dict(kind="import", field=fs, cls=cls, mods=mods))
     for k in range(nf):
         cases.append(gen_raw(rng, k % 2 == 0))
